@@ -78,7 +78,8 @@ class Counting(io.BytesIO):
         self.closed_by_callee = True
 
 
-class Timeout(Exception):
+class Timeout(BaseException):
+    """not an Exception: the loaders' own `except Exception` conversions must not swallow the watchdog"""
     pass
 
 
@@ -140,9 +141,13 @@ def contract(opener, data, limit_s=5.0):
             problems.append((phase, type(e).__name__, site_of(e)))
     finally:
         signal.setitimer(signal.ITIMER_REAL, 0)
+    dt = time.time() - t0
+    if dt >= 0.95 * limit_s and not any(p[1] == "TIMEOUT" for p in problems):
+        # the alarm fired but was converted on the way out: the time itself is the verdict
+        problems.append((phase, "TIMEOUT", "no result within %.0f s" % limit_s))
     if f.closed_by_callee:
         problems.append((phase, "CLOSED", "caller's stream closed"))
-    return problems, f.calls, f.bytes_read, time.time() - t0
+    return problems, f.calls, f.bytes_read, dt
 
 
 OPENER_NAMES = ["MP3", "TrueAudio", "OggTheora", "OggSpeex", "OggVorbis", "OggFLAC", "FLAC", "AIFF", "APEv2File", "MP4", "ID3FileType", "WavPack",
